@@ -89,6 +89,11 @@ def run(chk, ctx):
                         "a checkpoint leaves the stack exactly when it is the step before the adjoint position: x - (max_n - r - 1)")
                 else:
                     res = st.entails_eq(x - (M - R - ONE))
+                    # only a checkpoint that sits on the stack can be "kept although it is the last step": a step that is
+                    # no stack element (an implicit period checkpoint that is never deleted) is outside this rule
+                    on_stack = any(st.entails_eq(x - Lin.sym(shared.top_syms(it, c))) == "yes" for c in sorted(it.containers))
+                    if res == "yes" and not on_stack:
+                        res = "not-on-stack"
                     ok = False if res == "yes" else (True if st.entails_neq(x - (M - R - ONE)) or
                                                      st.entails_ineq((M - R - ONE) - x - ONE) else None)
                     chk.decide("C13.SIB", cons + "/keep-when-not-last", ok,
@@ -159,6 +164,8 @@ def run(chk, ctx):
     r2, r1 = roles(two[0]), roles(ref[0])
     cons = f"{two[0].construct}#roles"
     tracked = not (two[0].interp.untracked or ref[0].interp.untracked) and two[0].interp.containers and ref[0].interp.containers
+    if getattr(two[0].interp, "fuzzy", None) or getattr(ref[0].interp, "fuzzy", None):
+        tracked = False     # a run that met constructs it cannot follow has no definite set of roles
     chk.decide("C13.SIB", cons, None if (r1 is None or r2 is None or not tracked) else (True if r1 == r2 else False),
                f"action roles of the block reversal {r2} vs. Multistage reversal {r1}", rel=two[0].rel, node=two[0].fn)
     rule_label(chk, "C13.LABEL", two)
